@@ -1,4 +1,648 @@
+//! W4 — include expansion over a simulated file system (C20).
+//!
+//! System: `mech::read_mech_source_file(path)` — the real mechfs code — over a directory tree the
+//! simulator builds per run on tmpfs. Reference: a textual include expander over the in-memory
+//! description of the same tree. Faults are real file-system objects (missing targets,
+//! directories in place of files, invalid UTF-8, dangling symlinks, symlink aliases, symlink
+//! loops) plus an "editor" actor that changes the tree between two loads of the same root.
+
+use mechsim::check::*;
+use mechsim::rng::{Digest, Rng};
+use mechsim::*;
+use serde::{Deserialize, Serialize};
+use serde_json::{json, Value as J};
+use std::collections::{BTreeMap, BTreeSet};
+use std::path::{Path, PathBuf};
+use std::time::Duration;
+
+#[global_allocator]
+static GLOBAL: alloc::Counting = alloc::Counting;
+
+const WORLD_ID: u64 = 4;
+const VERIF: &str = "/verif";
+
+// -------------------------------------------------------------------------------------------------
+// the simulated tree
+
+#[derive(Clone, Debug, Serialize, Deserialize, PartialEq)]
+enum Entry {
+  /// regular file with this text
+  File(String),
+  /// regular file that is not valid UTF-8
+  Binary(Vec<u8>),
+  /// a directory whose name ends in .mec (open succeeds, read fails)
+  DirNamedLikeFile,
+  /// symbolic link with this target text (relative to the link's directory)
+  Symlink(String),
+}
+
+/// path (relative to the run's root, '/'-separated, no leading slash) -> entry. Directories are implied.
+#[derive(Clone, Debug, Serialize, Deserialize, PartialEq)]
+struct Tree { entries: BTreeMap<String, Entry>, dirs: BTreeSet<String> }
+
+#[derive(Clone, Debug, Serialize, Deserialize)]
+enum Edit { Write(String, Entry), Remove(String) }
+
+#[derive(Clone, Debug, Serialize, Deserialize)]
+struct Scenario {
+  tree: Tree,
+  root: String,
+  /// edits applied before the 2nd, 3rd … load of the same root
+  edits: Vec<Vec<Edit>>,
+}
+
+// -------------------------------------------------------------------------------------------------
+// reference expander (never touches the disk)
+
+#[derive(Clone, Debug, PartialEq)]
+enum Expect { Text(String), Circular, IncludeFailed { raw: Option<String> } }
+
+#[derive(Debug)]
+enum RefErr { Circular, Failed(Option<String>) }
+
+/// Resolve `raw` from directory `dir` the way canonicalize does: every component must exist,
+/// symlinks are followed, `..` pops. Returns the canonical entry path.
+fn resolve(tree: &Tree, dir: &str, raw: &str, depth: usize) -> Option<String> {
+  if depth > 40 { return None; }
+  let mut cur: Vec<String> = if raw.starts_with('/') { vec![] } else { dir.split('/').filter(|s| !s.is_empty()).map(|s| s.to_string()).collect() };
+  let comps: Vec<&str> = raw.split('/').filter(|s| !s.is_empty()).collect();
+  for (i, c) in comps.iter().enumerate() {
+    let last = i + 1 == comps.len();
+    match *c {
+      "." => {}
+      ".." => { if cur.is_empty() { return None; } cur.pop(); }
+      name => {
+        let mut p = cur.clone(); p.push(name.to_string());
+        let key = p.join("/");
+        if tree.dirs.contains(&key) { cur = p; continue; }
+        match tree.entries.get(&key) {
+          None => return None,
+          Some(Entry::Symlink(target)) => {
+            let r = resolve(tree, &cur.join("/"), target, depth + 1)?;
+            if last { return Some(r); }
+            // a symlink to a directory in the middle of a path
+            if tree.dirs.contains(&r) { cur = r.split('/').map(|s| s.to_string()).collect(); } else { return None; }
+          }
+          Some(_) => { if last { return Some(key); } else { return None; } }
+        }
+      }
+    }
+  }
+  let key = cur.join("/");
+  if tree.dirs.contains(&key) || key.is_empty() { Some(key) } else { None }
+}
+
+fn fence_delim(line: &str) -> Option<(char, usize, usize)> {
+  let b = line.as_bytes();
+  let mut i = 0;
+  while i < b.len() && b[i] == b' ' && i < 4 { i += 1; }
+  if i > 3 || i >= b.len() { return None; }
+  let m = b[i] as char;
+  if m != '`' && m != '~' { return None; }
+  let mut j = i;
+  while j < b.len() && b[j] as char == m { j += 1; }
+  if j - i < 3 { return None; }
+  Some((m, j - i, j))
+}
+fn fence_closes(line: &str, m: char, min: usize) -> bool {
+  match fence_delim(line) {
+    Some((lm, n, after)) => lm == m && n >= min && line[after..].chars().all(|c| c == ' ' || c == '\t' || c == '\r' || c == '\n'),
+    None => false,
+  }
+}
+
+#[derive(Default, Debug)]
+struct RefStats { expansions: BTreeMap<String, u64>, max_depth: usize, fenced_include_lookalikes: u64, dotdot_includes: u64, padded_include_lines: u64, unclosed_fences: u64 }
+
+fn ref_expand(tree: &Tree, canon: &str, active: &mut Vec<String>, st: &mut RefStats) -> Result<String, RefErr> {
+  if active.iter().any(|a| a == canon) { return Err(RefErr::Circular); }
+  *st.expansions.entry(canon.to_string()).or_insert(0) += 1;
+  st.max_depth = st.max_depth.max(active.len() + 1);
+  let text = match tree.entries.get(canon) {
+    Some(Entry::File(t)) => t.clone(),
+    _ => return Err(RefErr::Failed(None)), // directory, binary, or vanished
+  };
+  active.push(canon.to_string());
+  let dir = match canon.rfind('/') { Some(i) => canon[..i].to_string(), None => String::new() };
+  let mut out = String::new();
+  let mut fence: Option<(char, usize)> = None;
+  for line in text.split_inclusive('\n') {
+    if let Some((m, n)) = fence {
+      out.push_str(line);
+      if line.trim().starts_with('{') && line.trim().ends_with(".mec}") { st.fenced_include_lookalikes += 1; }
+      if fence_closes(line, m, n) { fence = None; }
+      continue;
+    }
+    if let Some((m, n, _)) = fence_delim(line) { fence = Some((m, n)); out.push_str(line); continue; }
+    let (body, nl) = match line.strip_suffix('\n') { Some(b) => (b, "\n"), None => (line, "") };
+    let t = body.trim();
+    if t.len() >= 2 && t.starts_with('{') && t.ends_with('}') {
+      let inner = t[1..t.len() - 1].trim();
+      if inner.ends_with(".mec") {
+        if inner.contains("..") { st.dotdot_includes += 1; }
+        if t.len() != body.len() || inner.len() != t.len() - 2 { st.padded_include_lines += 1; }
+        let target = match resolve(tree, &dir, inner, 0) { Some(t) => t, None => { return Err(RefErr::Failed(Some(inner.to_string()))); } };
+        if tree.dirs.contains(&target) { return Err(RefErr::Failed(None)); }
+        let sub = ref_expand(tree, &target, active, st)?;
+        out.push_str(&sub);
+        out.push_str(nl);
+        continue;
+      }
+    }
+    out.push_str(line);
+  }
+  if fence.is_some() { st.unclosed_fences += 1; }
+  active.pop();
+  Ok(out)
+}
+
+/// The reference's answer, or None when both a cycle and a failing include are reachable in an
+/// order the property does not fix (then either error class is accepted).
+fn reference(tree: &Tree, root: &str, st: &mut RefStats) -> (Expect, bool) {
+  let canon = match resolve(tree, "", root, 0) { Some(c) => c, None => return (Expect::IncludeFailed { raw: Some(root.to_string()) }, false) };
+  let mut active = vec![];
+  let first = match ref_expand(tree, &canon, &mut active, st) {
+    Ok(t) => return (Expect::Text(t), false),
+    Err(RefErr::Circular) => Expect::Circular,
+    Err(RefErr::Failed(raw)) => Expect::IncludeFailed { raw },
+  };
+  // is the other error class reachable too? (walk the graph ignoring order)
+  let both = reachable_errors(tree, &canon);
+  (first, both.0 && both.1)
+}
+
+/// (a cycle is reachable, a failing include is reachable) over the include graph from `start`.
+fn reachable_errors(tree: &Tree, start: &str) -> (bool, bool) {
+  fn includes(tree: &Tree, canon: &str) -> Vec<Option<String>> {
+    let text = match tree.entries.get(canon) { Some(Entry::File(t)) => t.clone(), _ => return vec![None] };
+    let dir = match canon.rfind('/') { Some(i) => canon[..i].to_string(), None => String::new() };
+    let mut out = vec![];
+    let mut fence: Option<(char, usize)> = None;
+    for line in text.split_inclusive('\n') {
+      if let Some((m, n)) = fence { if fence_closes(line, m, n) { fence = None; } continue; }
+      if let Some((m, n, _)) = fence_delim(line) { fence = Some((m, n)); continue; }
+      let t = line.trim();
+      if t.len() >= 2 && t.starts_with('{') && t.ends_with('}') {
+        let inner = t[1..t.len() - 1].trim();
+        if inner.ends_with(".mec") { out.push(resolve(tree, &dir, inner, 0).filter(|t| !tree.dirs.contains(t))); }
+      }
+    }
+    out
+  }
+  let mut cyc = false; let mut fail = false;
+  fn dfs(tree: &Tree, n: &str, stack: &mut Vec<String>, seen: &mut BTreeSet<String>, cyc: &mut bool, fail: &mut bool) {
+    if stack.iter().any(|s| s == n) { *cyc = true; return; }
+    if !matches!(tree.entries.get(n), Some(Entry::File(_))) { *fail = true; return; }
+    if !seen.insert(format!("{}|{}", stack.len(), n)) && stack.len() > 8 { return; }
+    stack.push(n.to_string());
+    for inc in includes(tree, n) { match inc { None => *fail = true, Some(t) => dfs(tree, &t, stack, seen, cyc, fail) } }
+    stack.pop();
+  }
+  dfs(tree, start, &mut vec![], &mut BTreeSet::new(), &mut cyc, &mut fail);
+  (cyc, fail)
+}
+
+// -------------------------------------------------------------------------------------------------
+// generator
+
+const DIRS: [&str; 4] = ["", "sub", "sub/deep", "other"];
+
+fn rel(from_dir: &str, to: &str, rng: &mut Rng) -> String {
+  // a relative spelling of `to` (a path from the run root) as seen from `from_dir`
+  let from: Vec<&str> = from_dir.split('/').filter(|s| !s.is_empty()).collect();
+  let tov: Vec<&str> = to.split('/').collect();
+  let mut common = 0;
+  while common < from.len() && common + 1 < tov.len() && from[common] == tov[common] { common += 1; }
+  let mut parts: Vec<String> = vec![];
+  for _ in common..from.len() { parts.push("..".into()); }
+  for p in &tov[common..] { parts.push(p.to_string()); }
+  let mut s = parts.join("/");
+  if rng.chance(1, 6) { s = format!("./{}", s); }
+  s
+}
+
+fn gen_lines(rng: &mut Rng, includes: &[String], filler: bool) -> String {
+  let plain = ["x := 1", "Some prose here.", "y := x + 2", "# heading", "", "a {b.mec} c", "{1+1}", "{foo/bar}", "{x.mech}", "text {inline.mec}", "    {indented-not-code.mec-}", "{ not an include }", "{{double.mec}}", "{a.mec", "b.mec}"];
+  let mut lines: Vec<String> = vec![];
+  let mut inc: Vec<String> = includes.to_vec();
+  let n_extra = if filler { rng.usize(6) } else { 0 };
+  for _ in 0..n_extra { lines.push(rng.pick(&plain).to_string()); }
+  // fences with content (possibly include-looking) that must stay untouched
+  let n_fences = rng.usize(3);
+  for _ in 0..n_fences {
+    let m = if rng.chance(1, 2) { '`' } else { '~' };
+    let n = 3 + rng.usize(3);
+    let indent = " ".repeat(rng.usize(4));
+    let info = if rng.chance(1, 3) { "mech" } else { "" };
+    let mut block = vec![format!("{}{}{}", indent, m.to_string().repeat(n), info)];
+    let body_n = 1 + rng.usize(3);
+    for _ in 0..body_n {
+      match rng.below(5) {
+        0 => block.push("{fenced.mec}".to_string()),
+        1 => block.push(m.to_string().repeat(n - 1)),                                                                                // false closer: shorter run
+        2 => block.push(format!("{} trailing", m.to_string().repeat(n))),                                                          // false closer: trailing text
+        3 => block.push(format!("{}", (if m == '`' { '~' } else { '`' }).to_string().repeat(n))),                                  // other marker
+        _ => block.push("code line".to_string()),
+      }
+    }
+    let unclosed = rng.chance(1, 8);
+    if !unclosed { block.push(format!("{}{}{}", " ".repeat(rng.usize(4)), m.to_string().repeat(n + rng.usize(2)), if rng.chance(1, 4) { "  " } else { "" })); }
+    let pos = rng.usize(lines.len() + 1);
+    if unclosed { lines.extend(block); } else { for (i, b) in block.into_iter().enumerate() { lines.insert(pos + i, b); } }
+  }
+  // four-space "fence" that is not a fence
+  if rng.chance(1, 6) { let p = rng.usize(lines.len() + 1); lines.insert(p, "    ```".to_string()); }
+  // include lines, with whitespace variants; must not land inside a fence: put them before the first fence opener or after the last closer
+  let first_fence = lines.iter().position(|l| fence_delim(l).is_some()).unwrap_or(lines.len());
+  while let Some(t) = inc.pop() {
+    let pad_l = match rng.below(4) { 0 => "  ", 1 => "\t", _ => "" };
+    let pad_r = match rng.below(4) { 0 => "  ", 1 => " \t", _ => "" };
+    let inner_l = if rng.chance(1, 4) { " " } else { "" };
+    let inner_r = if rng.chance(1, 4) { " " } else { "" };
+    let line = format!("{}{{{}{}{}}}{}", pad_l, inner_l, t, inner_r, pad_r);
+    let pos = rng.usize(first_fence + 1);
+    lines.insert(pos, line);
+  }
+  let mut text = lines.join("\n");
+  if !lines.is_empty() && rng.chance(3, 4) { text.push('\n'); }
+  text
+}
+
+fn gen_scenario(rng: &mut Rng) -> Scenario {
+  let n_files = 1 + rng.usize(4);
+  let n_dirs = 1 + rng.usize(3);
+  let names = ["a.mec", "b.mec", "c.mec", "d.mec"];
+  let mut paths: Vec<String> = vec![];
+  let mut dirs: BTreeSet<String> = BTreeSet::new();
+  for i in 0..n_files {
+    let d = DIRS[rng.usize(n_dirs.min(DIRS.len()))];
+    let d = if i == 0 && rng.chance(1, 2) { "" } else { d };
+    let p = if d.is_empty() { names[i].to_string() } else { format!("{}/{}", d, names[i]) };
+    let mut acc = String::new();
+    for part in d.split('/').filter(|s| !s.is_empty()) { if !acc.is_empty() { acc.push('/'); } acc.push_str(part); dirs.insert(acc.clone()); }
+    paths.push(p);
+  }
+  // every subset of include edges (with repeats): each ordered pair with probability ~1/3
+  let mut tree = Tree { entries: BTreeMap::new(), dirs };
+  let mut missing_used = false;
+  let fault = rng.below(10); // which fault kind this run carries, if any
+  for i in 0..n_files {
+    let from_dir = match paths[i].rfind('/') { Some(x) => paths[i][..x].to_string(), None => String::new() };
+    let mut incs = vec![];
+    for j in 0..n_files {
+      let p = if i == j { 12 } else { 3 };
+      if rng.chance(1, p) { incs.push(rel(&from_dir, &paths[j], rng)); if rng.chance(1, 5) { incs.push(rel(&from_dir, &paths[j], rng)); } }
+    }
+    if fault == 0 && !missing_used && rng.chance(1, 2) { incs.push(rel(&from_dir, "nowhere/missing.mec", rng)); missing_used = true; }
+    if fault == 1 && !missing_used && rng.chance(1, 2) { incs.push("gone.mec".to_string()); missing_used = true; }
+    rng.shuffle(&mut incs);
+    let text = gen_lines(rng, &incs, true);
+    tree.entries.insert(paths[i].clone(), Entry::File(text));
+  }
+  // faults as real file-system objects
+  let victim = if n_files > 1 { 1 + rng.usize(n_files - 1) } else { 0 };
+  match fault {
+    2 if n_files > 1 => { tree.entries.insert(paths[victim].clone(), Entry::DirNamedLikeFile); }
+    3 if n_files > 1 => { tree.entries.insert(paths[victim].clone(), Entry::Binary(vec![0x66, 0x6f, 0xff, 0xfe, 0x0a, 0xc3, 0x28])); }
+    4 if n_files > 1 => { tree.entries.insert(paths[victim].clone(), Entry::Symlink("does-not-exist.mec".into())); }
+    5 if n_files > 1 => {
+      // symlink alias: victim becomes a link to another file of the graph (a cycle may exist only through canonicalisation)
+      let other = rng.usize(n_files);
+      if other != victim {
+        let from_dir = match paths[victim].rfind('/') { Some(x) => paths[victim][..x].to_string(), None => String::new() };
+        let target = rel(&from_dir, &paths[other], rng);
+        tree.entries.insert(paths[victim].clone(), Entry::Symlink(target));
+      }
+    }
+    6 if n_files > 1 => {
+      // symlink loop
+      let name = paths[victim].rsplit('/').next().unwrap().to_string();
+      tree.entries.insert(paths[victim].clone(), Entry::Symlink(name));
+    }
+    _ => {}
+  }
+  // history: an editor changes the tree between loads of the same root
+  let mut edits = vec![];
+  let n_loads = 1 + rng.usize(3);
+  for _ in 1..n_loads {
+    let mut batch = vec![];
+    for _ in 0..(1 + rng.usize(2)) {
+      let f = rng.usize(n_files);
+      match rng.below(4) {
+        0 if f != 0 => batch.push(Edit::Remove(paths[f].clone())),
+        1 => { let t = gen_lines(rng, &[], true); batch.push(Edit::Write(paths[f].clone(), Entry::File(t))); }
+        _ => {
+          let from_dir = match paths[f].rfind('/') { Some(x) => paths[f][..x].to_string(), None => String::new() };
+          let mut incs = vec![];
+          for j in 0..n_files { if rng.chance(1, 3) { incs.push(rel(&from_dir, &paths[j], rng)); } }
+          let t = gen_lines(rng, &incs, true);
+          batch.push(Edit::Write(paths[f].clone(), Entry::File(t)));
+        }
+      }
+    }
+    edits.push(batch);
+  }
+  Scenario { tree, root: paths[0].clone(), edits }
+}
+
+/// The thorough tier's complete walk: three files a/b/c in the root directory, every subset of
+/// the nine include edges, crossed with a fence placement.
+fn enumerated_scenario(idx: u64) -> Scenario {
+  let edges = idx % 512;
+  let variant = (idx / 512) % 4;
+  let names = ["a.mec", "b.mec", "c.mec"];
+  let mut tree = Tree { entries: BTreeMap::new(), dirs: BTreeSet::new() };
+  for i in 0..3 {
+    let mut lines: Vec<String> = vec![format!("file {}", names[i])];
+    for j in 0..3 {
+      if (edges >> (i * 3 + j)) & 1 == 1 {
+        match variant {
+          0 => lines.push(format!("{{{}}}", names[j])),
+          1 => { lines.push(format!("  {{ {} }}\t", names[j])); }
+          2 => { lines.push("```".into()); lines.push(format!("{{{}}}", names[j])); lines.push("```".into()); lines.push(format!("{{{}}}", names[j])); }
+          _ => { lines.push(format!("{{{}}}", names[j])); lines.push("~~~~".into()); lines.push(format!("{{{}}}", names[j])); lines.push("~~~".into()); lines.push("~~~~~".into()); }
+        }
+      }
+    }
+    lines.push(format!("end {}", names[i]));
+    let mut t = lines.join("\n");
+    if variant != 1 { t.push('\n'); }
+    tree.entries.insert(names[i].to_string(), Entry::File(t));
+  }
+  Scenario { tree, root: "a.mec".into(), edits: vec![] }
+}
+
+// -------------------------------------------------------------------------------------------------
+// the system under test on a real directory
+
+fn materialise(base: &Path, tree: &Tree) {
+  std::fs::remove_dir_all(base).ok();
+  std::fs::create_dir_all(base).unwrap();
+  for d in &tree.dirs { std::fs::create_dir_all(base.join(d)).ok(); }
+  for (p, e) in &tree.entries { write_entry(base, p, e); }
+}
+fn write_entry(base: &Path, p: &str, e: &Entry) {
+  let full = base.join(p);
+  if let Some(parent) = full.parent() { std::fs::create_dir_all(parent).ok(); }
+  if let Ok(md) = std::fs::symlink_metadata(&full) { if md.is_dir() { std::fs::remove_dir_all(&full).ok(); } else { std::fs::remove_file(&full).ok(); } }
+  match e {
+    Entry::File(t) => { std::fs::write(&full, t).unwrap(); }
+    Entry::Binary(b) => { std::fs::write(&full, b).unwrap(); }
+    Entry::DirNamedLikeFile => { std::fs::create_dir_all(&full).unwrap(); }
+    Entry::Symlink(t) => { std::os::unix::fs::symlink(t, &full).unwrap(); }
+  }
+}
+fn apply_edit(base: &Path, tree: &mut Tree, e: &Edit) {
+  match e {
+    Edit::Write(p, ent) => { write_entry(base, p, ent); tree.entries.insert(p.clone(), ent.clone()); }
+    Edit::Remove(p) => {
+      let full = base.join(p);
+      if let Ok(md) = std::fs::symlink_metadata(&full) { if md.is_dir() { std::fs::remove_dir_all(&full).ok(); } else { std::fs::remove_file(&full).ok(); } }
+      tree.entries.remove(p);
+    }
+  }
+}
+
+#[derive(Clone, Debug, PartialEq)]
+enum Observed { Text(String), Err(String, String), Panicked(String), NotAString }
+
+fn load(base: &Path, root: &str) -> Observed {
+  let p = base.join(root);
+  let r = std::panic::catch_unwind(std::panic::AssertUnwindSafe(|| mech::read_mech_source_file(&p)));
+  match r {
+    Err(e) => Observed::Panicked(hashseed::panic_message(&e)),
+    Ok(Err(e)) => Observed::Err(e.kind_name(), e.kind_message()),
+    Ok(Ok(mech::MechSourceCode::String(s))) => Observed::Text(s),
+    Ok(Ok(_)) => Observed::NotAString,
+  }
+}
+
+#[derive(Clone, Debug, Serialize, Deserialize)]
+struct Violation { class: String, signature: String, summary: String }
+
+fn judge(exp: &Expect, either_error: bool, obs: &Observed) -> Option<(String, String)> {
+  match (exp, obs) {
+    (_, Observed::Panicked(m)) => Some(("loader-panicked".into(), format!("read_mech_source_file panicked: {}", node::trunc(m, 120)))),
+    (_, Observed::NotAString) => Some(("wrong-source-kind".into(), "a .mec file did not load as source text".into())),
+    (Expect::Text(e), Observed::Text(o)) => if e == o { None } else {
+      let first = e.bytes().zip(o.bytes()).position(|(a, b)| a != b).unwrap_or(e.len().min(o.len()));
+      Some(("expansion-differs".into(), format!("expanded text differs from the textual substitution at byte {}: expected {:?} ; observed {:?}", first, node::trunc(&e[first.saturating_sub(20).min(e.len())..], 80), node::trunc(&o[first.saturating_sub(20).min(o.len())..], 80))))
+    },
+    (Expect::Text(_), Observed::Err(_, m)) => Some((if m.contains("Circular") { "false-cycle".into() } else { "false-include-failure".into() }, format!("loading failed although the include graph is acyclic and complete: {}", m))),
+    (Expect::Circular, Observed::Err(_, m)) if m.contains("Circular include") => None,
+    (Expect::IncludeFailed { raw }, Observed::Err(_, m)) if m.contains("Include failed") => match raw {
+      Some(r) if !m.contains(r.as_str()) => Some(("error-does-not-name-file".into(), format!("include error does not name the missing file `{}`: {}", r, m))),
+      _ => None,
+    },
+    (Expect::Circular, Observed::Err(_, m)) | (Expect::IncludeFailed { .. }, Observed::Err(_, m)) => {
+      if either_error && (m.contains("Circular include") || m.contains("Include failed")) { None }
+      else { Some(("wrong-error-class".into(), format!("expected {:?}, observed error: {}", exp, m))) }
+    }
+    (Expect::Circular, Observed::Text(_)) => Some(("cycle-not-detected".into(), "loading succeeded although the include graph has a cycle".into())),
+    (Expect::IncludeFailed { .. }, Observed::Text(_)) => Some(("missing-file-not-reported".into(), "loading succeeded although an included file is missing or unreadable".into())),
+  }
+}
+
+struct RunOut { digest: u64, nontrivial: bool, counters: BTreeMap<String, u64>, violation: Option<Violation>, log: Vec<String>, scenario: Scenario }
+
+fn bump(m: &mut BTreeMap<String, u64>, k: &str, n: u64) { *m.entry(k.to_string()).or_insert(0) += n; }
+
+fn execute(sc: &Scenario, tag: &str, blackbox: Option<&str>) -> RunOut {
+  let base = PathBuf::from(format!("/dev/shm/mechsim-fs-{}/{}", std::process::id(), tag));
+  let mut counters = BTreeMap::new();
+  let mut log = vec![];
+  let mut dig = Digest::new();
+  let mut tree = sc.tree.clone();
+  materialise(&base, &tree);
+  if let Some(bb) = blackbox { std::fs::write(bb, json!({"world": "W4", "scenario": sc}).to_string()).ok(); }
+  let mut violation = None;
+  let mut nontrivial = false;
+  for load_no in 0..=sc.edits.len() {
+    if load_no > 0 {
+      for e in &sc.edits[load_no - 1] { apply_edit(&base, &mut tree, e); bump(&mut counters, "fault:editor-changed-tree-between-loads", 1); }
+    }
+    let mut st = RefStats::default();
+    let (exp, either) = reference(&tree, &sc.root, &mut st);
+    let obs = load(&base, &sc.root);
+    bump(&mut counters, "steps", 1);
+    if matches!(exp, Expect::Text(_)) {
+      if st.expansions.values().any(|n| *n > 1) { bump(&mut counters, "reach:same-file-included-more-than-once", 1); }
+      if st.max_depth >= 3 { bump(&mut counters, "reach:include-depth-3-or-more", 1); }
+      if st.fenced_include_lookalikes > 0 { bump(&mut counters, "reach:include-looking-line-inside-fence", 1); }
+      if st.dotdot_includes > 0 { bump(&mut counters, "reach:include-through-dotdot", 1); }
+      if st.padded_include_lines > 0 { bump(&mut counters, "reach:include-line-with-padding", 1); }
+      if st.unclosed_fences > 0 { bump(&mut counters, "reach:unclosed-fence", 1); }
+      if st.expansions.len() >= 2 { bump(&mut counters, "reach:expansions-with-at-least-one-include", 1); }
+    }
+    match &exp {
+      Expect::Text(t) => { bump(&mut counters, "reach:expect-text", 1); if t.contains("file ") || t.len() > 0 { nontrivial = true; } }
+      Expect::Circular => bump(&mut counters, "reach:expect-circular", 1),
+      Expect::IncludeFailed { .. } => bump(&mut counters, "reach:expect-include-failed", 1),
+    }
+    if either { bump(&mut counters, "reach:both-error-classes-reachable", 1); }
+    let obs_s = match &obs { Observed::Text(t) => format!("text {} bytes", t.len()), Observed::Err(n, m) => format!("err {} {}", n, node::trunc(m, 40).replace(base.to_str().unwrap_or(""), "<root>")), Observed::Panicked(m) => format!("panicked {}", node::trunc(m, 40)), Observed::NotAString => "not-a-string".into() };
+    dig.str(&format!("{:?}", tree.entries.keys().collect::<Vec<_>>()));
+    for (_, e) in &tree.entries { dig.str(&format!("{:?}", e)); }
+    dig.str(&obs_s);
+    log.push(format!("load {}: expected {} ; observed {}", load_no + 1, match &exp { Expect::Text(t) => format!("text {} bytes", t.len()), e => format!("{:?}", e) }, obs_s));
+    if let Some((class, summary)) = judge(&exp, either, &obs) {
+      let detail = if load_no > 0 { "after-edit" } else { "first-load" };
+      violation = Some(Violation { class: class.clone(), signature: format!("{}|{}", class, detail), summary });
+      break;
+    }
+  }
+  // fault accounting from the tree description
+  for (_, e) in &sc.tree.entries {
+    match e {
+      Entry::DirNamedLikeFile => bump(&mut counters, "fault:directory-in-place-of-file", 1),
+      Entry::Binary(_) => bump(&mut counters, "fault:invalid-utf8", 1),
+      Entry::Symlink(t) => { if t == "does-not-exist.mec" { bump(&mut counters, "fault:dangling-symlink", 1) } else if !t.contains('/') && sc.tree.entries.iter().any(|(p, _)| p.ends_with(t.as_str()) && matches!(sc.tree.entries.get(p), Some(Entry::Symlink(x)) if x == t)) { bump(&mut counters, "fault:symlink-loop", 1) } else { bump(&mut counters, "fault:symlink-alias", 1) } }
+      Entry::File(t) => { if t.contains("missing.mec") || t.contains("gone.mec") { bump(&mut counters, "fault:missing-target", 1); } }
+    }
+  }
+  std::fs::remove_dir_all(&base).ok();
+  RunOut { digest: dig.finish(), nontrivial, counters, violation, log, scenario: sc.clone() }
+}
+
+fn minimise(sc: &Scenario, sig: &str, tag: &str) -> Scenario {
+  let same = |c: &Scenario| execute(c, tag, None).violation.map(|v| v.signature == sig).unwrap_or(false);
+  let mut cur = sc.clone();
+  // drop edits, then drop lines of each file one at a time
+  while !cur.edits.is_empty() { let mut c = cur.clone(); c.edits.pop(); if same(&c) { cur = c; } else { break; } }
+  let keys: Vec<String> = cur.tree.entries.keys().cloned().collect();
+  for k in keys {
+    loop {
+      let text = match cur.tree.entries.get(&k) { Some(Entry::File(t)) => t.clone(), _ => break };
+      let lines: Vec<&str> = text.split_inclusive('\n').collect();
+      let mut reduced = false;
+      for i in 0..lines.len() {
+        let mut l2 = lines.clone(); l2.remove(i);
+        let mut c = cur.clone(); c.tree.entries.insert(k.clone(), Entry::File(l2.concat()));
+        if same(&c) { cur = c; reduced = true; break; }
+      }
+      if !reduced { break; }
+    }
+  }
+  cur
+}
+
+fn worker_run(seed: u64, k: u64, thorough: bool, blackbox: Option<&str>) -> J {
+  let enumerated = thorough && k < 2048;
+  let sc = if enumerated { enumerated_scenario(k) } else { let mut rng = Rng::for_run(seed, WORLD_ID * 16, k); gen_scenario(&mut rng) };
+  let tag = format!("{}", k);
+  let out = execute(&sc, &tag, blackbox);
+  let mut counters = out.counters.clone();
+  if enumerated { bump(&mut counters, "enumerated-three-file-graphs", 1); }
+  let violations: Vec<J> = out.violation.iter().map(|v| {
+    let min = minimise(&sc, &v.signature, &format!("{}-min", k));
+    let o2 = execute(&min, &format!("{}-min", k), None);
+    let (fsc, fo) = if o2.violation.as_ref().map(|x| x.signature == v.signature).unwrap_or(false) { (min, o2) } else { (sc.clone(), execute(&sc, &tag, None)) };
+    let vv = fo.violation.clone().unwrap_or(v.clone());
+    json!({"properties": ["C20"], "class": v.class, "signature": v.signature, "summary": format!("run {}: {}", k, vv.summary),
+      "replay": {"world": "W4", "seed": seed, "run": k, "scenario": fsc, "event_log": fo.log, "violation": vv, "faults": describe_faults(&fsc)}})
+  }).collect();
+  let sample = if k % 4001 == 5 || k == 0 { json!({"run": k, "scenario": out.scenario, "event_log": out.log}) } else { J::Null };
+  json!({"digest": out.digest, "nontrivial": out.nontrivial, "state_digests": [], "counters": counters, "sets": {}, "violations": violations, "sample": sample})
+}
+
+fn describe_faults(sc: &Scenario) -> Vec<String> {
+  let mut v = vec![];
+  for (p, e) in &sc.tree.entries { match e { Entry::File(_) => {}, other => v.push(format!("{}: {:?}", p, other)) } }
+  for (i, b) in sc.edits.iter().enumerate() { v.push(format!("before load {}: {} edit(s)", i + 2, b.len())); }
+  v
+}
+
+// -------------------------------------------------------------------------------------------------
+// CLI
+
+fn arg<'a>(args: &'a [String], name: &str) -> Option<&'a str> { args.iter().position(|a| a == name).and_then(|i| args.get(i + 1)).map(|s| s.as_str()) }
+fn flag(args: &[String], name: &str) -> bool { args.iter().any(|a| a == name) }
+
 fn main() {
-  let r = mech::read_mech_source_file(std::path::Path::new("/nonexistent.mec"));
-  println!("{:?}", r.is_err());
+  let args: Vec<String> = std::env::args().collect();
+  let code = match args.get(1).map(|s| s.as_str()) {
+    Some("worker") => {
+      node::install_silent_panic_hook();
+      supervisor::limit_address_space(16 << 30);
+      let seed: u64 = arg(&args, "--seed").and_then(|s| s.parse().ok()).unwrap_or(1);
+      let thorough = flag(&args, "--thorough");
+      let bb = arg(&args, "--blackbox").map(|s| s.to_string());
+      supervisor::worker_loop(|k| worker_run(seed, k, thorough, bb.as_deref()));
+      0
+    }
+    Some("check") => check_cmd(&args[2..]),
+    Some("replay") => replay_cmd(&args[2..]),
+    Some("digests") => {
+      let runs: u64 = arg(&args, "--runs").and_then(|s| s.parse().ok()).unwrap_or(200);
+      let seed: u64 = arg(&args, "--seed").and_then(|s| s.parse().ok()).or_else(|| std::env::var("VERIF_SEED").ok().and_then(|s| s.parse().ok())).unwrap_or(1);
+      let jobs: usize = arg(&args, "--jobs").and_then(|s| s.parse().ok()).unwrap_or(supervisor::default_jobs());
+      let wargs: Vec<String> = vec!["worker".into(), "--seed".into(), seed.to_string()];
+      match supervisor::run_batch(wargs, 0, runs, jobs, Duration::from_secs(3600), 8) {
+        Ok(a) => { let mut d = a.digest_log.clone(); d.sort(); for (k, x) in d { println!("{} {:016x}", k, x); } 0 }
+        Err(e) => { eprintln!("{}", e); 2 }
+      }
+    }
+    _ => { eprintln!("usage: mechsim-fs check --property C20 --tier quick|thorough | replay <file> | digests --runs N"); 2 }
+  };
+  std::process::exit(code);
+}
+
+fn check_cmd(args: &[String]) -> i32 {
+  let tier = arg(args, "--tier").map(|s| s.to_string()).or_else(|| std::env::var("VERIF_TIER").ok()).unwrap_or("quick".into());
+  let thorough = tier == "thorough";
+  let tier = if thorough { "thorough".to_string() } else { "quick".to_string() };
+  let seed: u64 = arg(args, "--seed").and_then(|s| s.parse().ok()).or_else(|| std::env::var("VERIF_SEED").ok().and_then(|s| s.parse().ok())).unwrap_or(1);
+  let base = PathBuf::from(VERIF);
+  let mut wa: Vec<String> = vec!["worker".into(), "--seed".into(), seed.to_string()];
+  if thorough { wa.push("--thorough".into()); }
+  let mut spec = CheckSpec {
+    property: "C20".into(), world: "W4".into(), tier: tier.clone(), seed, level: "exploration".into(),
+    rule: format!("W4 include world: the real mech::read_mech_source_file over a directory tree built per run on tmpfs (private directory, one thread, removed afterwards) against a reference textual expander over the in-memory description of the same tree. Trees: 1-4 .mec files in up to 3 directories (root, child, grandchild, sibling), every ordered pair an include edge with probability 1/3 (self-loops 1/12, repeats), so chains, diamonds, repeated includes, self-includes and cycles of every length arise; relative spellings with `..` and `./`; include lines with leading/trailing spaces and tabs and inner padding; brace lines that are not includes; include tokens embedded in longer lines; backtick and tilde fences of length 3-5 indented 0-3 spaces with and without info strings, include-looking lines inside fences, false closers (shorter, other marker, trailing text), unclosed fences, a four-space non-fence; files with and without a final newline. Faults as real file-system objects: missing targets, a directory named like the target, invalid UTF-8, dangling symlink, symlink alias of another file of the graph, symlink loop; and as history an editor actor that rewrites, re-links or removes files between up to three loads of the same root. {} A run is non-trivial if at least one load expanded text; distinct = digest over tree contents and load outcomes.", if thorough { "Thorough tier: runs 0..2047 walk all 2^9 edge subsets over three files crossed with four include-line/fence placements; the rest is seeded." } else { "" }),
+    worker_args: wa,
+    runs: if thorough { 2048 + 1_500_000 } else { 120_000 },
+    budget: Duration::from_secs(if thorough { 420 } else { 40 }),
+    chunk: 64,
+    evidence: base.join("evidence/C20.json"),
+    replays: base.join("replays/C20"),
+    known: base.join("known_findings.jsonl"),
+    components_real: vec!["mech::mechfs: read_mech_source_file, expand_mechdown_includes(_recursive), expand_mechdown_include_tokens, fence detection".into(), "std::fs on a real tmpfs directory tree (canonicalize, File::open, read_to_string, symlinks)".into()],
+    components_stub: vec!["none of Mech is stubbed; simulated: the directory tree and its faults, the editor actor's schedule".into()],
+    assumptions: vec![
+      "the reference expander encodes C20 with CommonMark fence rules (opener: up to 3 spaces then >= 3 backticks or tildes; closer: same marker, at least as long, nothing but whitespace after)".into(),
+      "when both a cycle and a missing/unreadable file are reachable and the reference meets one first, either error class is accepted (the property does not order them)".into(),
+      "CRLF line endings are not generated (the property does not mention them)".into(),
+    ],
+    expected_reach: vec!["reach:same-file-included-more-than-once".into(), "reach:include-depth-3-or-more".into(), "reach:include-looking-line-inside-fence".into(), "reach:include-through-dotdot".into(), "reach:include-line-with-padding".into(), "reach:unclosed-fence".into(), "reach:expansions-with-at-least-one-include".into(), "reach:expect-text".into(), "reach:expect-circular".into(), "reach:expect-include-failed".into(), "fault:missing-target".into(), "fault:directory-in-place-of-file".into(), "fault:invalid-utf8".into(), "fault:dangling-symlink".into(), "fault:symlink-alias".into(), "fault:symlink-loop".into(), "fault:editor-changed-tree-between-loads".into()],
+    exhaustive: false,
+    extra: json!({}),
+  };
+  if let Some(r) = arg(args, "--runs").and_then(|s| s.parse().ok()) { spec.runs = r; }
+  if let Some(b) = arg(args, "--budget-s").and_then(|s| s.parse::<u64>().ok()) { spec.budget = Duration::from_secs(b); }
+  if let Some(e) = arg(args, "--evidence") { spec.evidence = PathBuf::from(e); }
+  let code = drive(spec);
+  std::fs::remove_dir_all(format!("/dev/shm/mechsim-fs-{}", std::process::id())).ok();
+  code
+}
+
+fn replay_cmd(args: &[String]) -> i32 {
+  let path = match args.get(0) { Some(p) => p, None => { eprintln!("replay <file>"); return 2; } };
+  let j: J = match std::fs::read_to_string(path).ok().and_then(|t| serde_json::from_str(&t).ok()) { Some(j) => j, None => { eprintln!("cannot read {}", path); return 2; } };
+  node::install_silent_panic_hook();
+  let want = j["signature"].as_str().or_else(|| j["violation"]["signature"].as_str()).unwrap_or("").to_string();
+  let sc: Scenario = match serde_json::from_value(j["scenario"].clone()) { Ok(s) => s, Err(e) => { eprintln!("bad scenario: {}", e); return 2; } };
+  if !flag(args, "--in-process") {
+    // a broken cycle check overflows the stack: observe that from outside
+    let exe = std::env::current_exe().unwrap();
+    return match std::process::Command::new(exe).arg("replay").arg(path).arg("--in-process").output() {
+      Ok(o) => { print!("{}", String::from_utf8_lossy(&o.stdout)); match o.status.code() { Some(c @ (0 | 1)) => c, _ => { println!("REPRODUCED host-aborted|process|died ({})", o.status); 1 } } }
+      Err(e) => { eprintln!("cannot spawn: {}", e); 2 }
+    };
+  }
+  let out = execute(&sc, "replay", None);
+  for l in &out.log { println!("{}", l); }
+  match out.violation {
+    Some(v) if want.is_empty() || v.signature == want => { println!("{}", v.summary); println!("REPRODUCED {}", v.signature); 1 }
+    Some(v) => { println!("different violation: {} (wanted {})", v.signature, want); 1 }
+    None => { println!("not reproduced"); 0 }
+  }
 }
